@@ -141,7 +141,7 @@ pub fn main(args: &Args) -> i32 {
         "C19",
         &args.tier,
         args.seed,
-        "proptest attribute soup: enum with 0-4 enum-level attributes and 1-4 variants (unit, one-field, empty-tuple, multi-field, named) carrying 0-3 attributes drawn from pools of well-formed and malformed/duplicated #[logos]/#[token]/#[regex]/#[error] forms, generics incl. const; 35% carry a constructively generated must-reject item (empty match, start look-behind, Unicode \\b, greedy dot without allow_greedy, undefined subpattern, named/empty/multi-field variant, const generic); oracle: no panic (catch_unwind), output parses as Rust, must-reject => compile_error present, accepted => graph error-free with a root that records nothing; non-trivial = distinct inputs with a malformed/duplicated attribute or a must-reject item",
+        "proptest attribute soup: enum with 0-4 enum-level attributes and 1-4 variants (unit, one-field, empty-tuple, multi-field, named) carrying 0-3 attributes drawn from pools of well-formed and malformed/duplicated #[logos]/#[token]/#[regex]/#[error] forms, generics incl. const; 35% carry a constructively generated must-reject item (empty match, start look-behind, Unicode \\b, greedy dot without allow_greedy, undefined subpattern, named/empty/multi-field variant, const generic); oracle: no panic (catch_unwind), output parses as Rust, must-reject => compile_error present, accepted => graph error-free with a root that records nothing; non-trivial = distinct inputs with a malformed/duplicated attribute or a must-reject item; second generator: the definition families of the other checks (core, subpattern incl. planted bad references, literal, conflict) judged for panic-freedom and soundness of accepted definitions (non-trivial there = definitions with subpatterns or non-ASCII text)",
     );
     run.assumptions = vec!["library entry point (proc_macro2 fallback spans); the real proc-macro on stable is exercised by tier P".into()];
     if let Some(path) = &args.replay {
@@ -180,6 +180,52 @@ pub fn main(args: &Args) -> i32 {
             2
         }
     };
+    let code = if code == 0 { family_part(args, &mut run) } else { code };
     run.write_evidence(&args.evidence);
     code
+}
+
+/// Second generator: the definition families of the other checks (core lexing, subpatterns incl. planted bad
+/// references, literals, conflicts). Those checks skip a case when the derive panics (a panic is C19's clause);
+/// here the same inputs are judged for exactly that: no panic, and an accepted definition has a sound graph and
+/// output that parses.
+fn family_part(args: &Args, run: &mut Run) -> i32 {
+    use model::gen::{callback_defs, conflict_defs, lexing_defs, literal_defs, pair_defs, subpattern_defs};
+    let strat = prop_oneof![
+        3 => lexing_defs(),
+        4 => subpattern_defs().prop_map(|c| c.def),
+        2 => literal_defs(),
+        1 => conflict_defs(),
+        1 => pair_defs(),
+        1 => callback_defs().prop_map(|(d, _, _)| d),
+    ];
+    let cases = if args.cases > 0 { args.cases } else if args.thorough() { 60000 } else { 4000 };
+    run.frozen = false;
+    let check = |def: &model::spec::DefSpec, run: &mut Run| -> Result<(), String> {
+        let src = model::prep::render(def);
+        run.eval(1);
+        let d = derive_rust(src.clone());
+        if d.panic.is_none() {
+            run.count(if d.errors.is_empty() { "family_accepted" } else { "family_rejected" }, 1);
+        }
+        if !def.subpatterns.is_empty() || !src.is_ascii() {
+            run.nontrivial(fnv(src.as_bytes()));
+        }
+        judge(&src, None, true, &d)
+    };
+    match drive(&strat, cases, args.seed ^ 0xC19F, 600, run, |d, run| check(d, run)) {
+        DriveResult::Pass => 0,
+        DriveResult::Fail(def) => {
+            let src = model::prep::render(&def);
+            let d = derive_rust(src.clone());
+            let msg = judge(&src, None, true, &d).err().unwrap_or_default();
+            run.violations = 1;
+            report_violation("C19", &args.replay_dir, &json!({"property": "C19", "tier": "G", "source": src, "must_reject": null, "fragments_ok": true, "findings": [{"property": "C19", "what": msg}]}));
+            1
+        }
+        DriveResult::Abort(m) => {
+            eprintln!("aborted: {m}");
+            2
+        }
+    }
 }
